@@ -1799,6 +1799,12 @@ class SQLModel:
                 )
         # TODO: put common sub-expression control object here and pass into converters
         temp_id_source = [0]
+        # generated query names are <step name>_<n> with n counting up from here: start above every number a
+        # table name ends in, so no generated name can equal the name of a table the query reads
+        for table_name in ops.get_tables().keys():
+            name_number = re.search(r"_([0-9]{1,15})$", str(table_name))
+            if name_number is not None:
+                temp_id_source[0] = max(temp_id_source[0], int(name_number.group(1)) + 1)
         near_sql = ops.to_near_sql_implementation_(
             db_model=self, using=None, temp_id_source=temp_id_source
         )
